@@ -194,6 +194,8 @@ func domChain(b *ssa.BasicBlock) []*ssa.BasicBlock {
 }
 
 func (x *fnCtx) startAtHeader(st *State, fr *Frame, h *ssa.BasicBlock, ord int) {
+	x.evalHeader = h
+	defer func() { x.evalHeader = nil }()
 	// heap: everything written anywhere in the function is unknown at the header
 	if x.writes["*"] {
 		epochCounter++
@@ -462,6 +464,8 @@ func phiName(p *ssa.Phi) string {
 }
 
 func (x *fnCtx) arriveAtHeader(st *State, fr *Frame, h, pred *ssa.BasicBlock, ord int) {
+	x.evalHeader = h
+	defer func() { x.evalHeader = nil }()
 	// bind phi values for this edge
 	idx := -1
 	for i, p := range h.Preds {
